@@ -120,15 +120,3 @@ Theorem C14_parse_well_defined :
   forall g f1 f2 text, parse g f1 text <> PFuel -> parse g f2 text <> PFuel -> parse g f1 text = parse g f2 text.
 Proof. exact parse_fuel_irrelevant. Qed.
 Print Assumptions C14_parse_well_defined.
-
-(* ---------- accepted texts: every white-space layout of a declaration list ---------- *)
-From XdrProofs Require Import TextTie.
-
-(* the parse of such a text does not depend on the fuel and is the whole text: with
-   C14_front_total on the resulting tree, Ast::new of the model returns Ok or Err (or one of the
-   two recorded panics) on all of them *)
-Theorem C14_laid_out_text_parses :
-  forall ds text fuel, reads_as ds text = true -> parse xdr_grammar fuel text <> PFuel ->
-  exists t, parse xdr_grammar fuel text = POk [t] "" /\ erase t = tree_of ds.
-Proof. exact text_parse_any_fuel. Qed.
-Print Assumptions C14_laid_out_text_parses.
